@@ -148,9 +148,12 @@ class Std:
             _, i = self.h(op['h'])
             self.objs[i]['strong'] = s_add(self.objs[i]['strong'], 1)
             H[op['as']] = ('rc', i)
-        elif k == 'drop':
+        elif k in ('drop', 'drop_via_raw'):
             _, i = H.pop(op['h'])
             self.drop_strong(i)
+        elif k in ('upgrade_if', 'wdrop_if'):
+            if op['w'] in H:
+                self.run_op({'op': k[:-3], 'w': op['w']})
         elif k == 'drop_if':
             if op['h'] in H:
                 _, i = H.pop(op['h'])
